@@ -232,34 +232,7 @@ def build():
            len(re.findall(r'\.(store|swap|fetch_and|fetch_xor|compare_exchange\w*)\(', whole)) == 0 and whole.count(".fetch_or(") == 1,
            "bitmap.rs contains exactly one write to the log (the fetch_or in mark_dirty) and no store/swap/CAS on it")
     u.raw("pub open spec fn page_bit_spec(page: usize) -> usize { (page % 8) as usize }")
-    # ---- C19: send_iotlb_msg (the bytes handed to write(2): libc::write cannot be stubbed in Kani)
-    ispan = kern.impl_span(r'^impl<I: VhostKernBackend \+ VhostKernFeatures> VhostIotlbBackend for I')
-    bind = Source("vhost/src/vhost_kern/vhost_binding.rs")
-    u.raw("// R4: constants re-emitted with the values of the working tree\npub const VHOST_IOTLB_MSG: i32 = %s;\npub const VHOST_IOTLB_MSG_V2: u32 = %s;\npub const VHOST_BACKEND_F_IOTLB_MSG_V2: u64 = %s;"
-          % (bind.const_value("VHOST_IOTLB_MSG"), bind.const_value("VHOST_IOTLB_MSG_V2"), bind.const_value("VHOST_BACKEND_F_IOTLB_MSG_V2")))
-    u.raw("impl KernDev {")
-    u.extracted_fn(kern, "send_iotlb_msg", within=ispan,
-                   sig_rw=[("R8", r'&self\b', '&mut self'), ("R10", r'Result<\(\)>', 'KResult<()>')],
-                   body_rw=[("R25", r'vhost_msg_v2 \{\s*type_: ([^,}]+),\s*\.\.Default::default\(\)\s*\}', r'vhost_msg_v2_with_type(\1)'),
-                            ("R25", r'vhost_msg \{\s*type_: ([^,}]+),\s*\.\.Default::default\(\)\s*\}', r'vhost_msg_with_type(\1)'),
-                            ("R25", r'msg\.perm as u8', 'access_as_u8(msg.perm)'), ("R25", r'msg\.msg_type as u8', 'iotlb_type_as_u8(msg.msg_type)'),
-                            ("R20", r'unsafe \{\s*write\(\s*self\.as_raw_fd\(\),\s*&(\w+) as \*const vhost_msg_v2 as \*const c_void,\s*(?:mem::size_of|size_of_)::<vhost_msg_v2>\(\),?\s*\)\s*\}', r'self.write_v2(self.as_raw_fd(), &\1, size_of_vhost_msg_v2())'),
-                            ("R20", r'unsafe \{\s*write\(\s*self\.as_raw_fd\(\),\s*&(\w+) as \*const vhost_msg as \*const c_void,\s*(?:mem::size_of|size_of_)::<vhost_msg>\(\),?\s*\)\s*\}', r'self.write_v1(self.as_raw_fd(), &\1, size_of_vhost_msg())')],
-                   hints=[(r'if self\.get_backend_features_acked\(\)', "assert((1u64 << 1u64) == 2u64) by (bit_vector);")],
-                   contract="""
-        ensures
-            final(self).written@.len() == old(self).written@.len() + 1, // [C19] exactly one write(2)
-            match final(self).written@.last() {
-                // [C19] V2 layout iff IOTLB_MSG_V2 was acknowledged; type tag, full struct size, and the caller's fields at the iotlb member
-                Written::V2(m, n) => old(self).acked & 2 != 0 && m.type_ == 2 && m.asid == 0 && n == 72 && m.__bindgen_anon_1.iotlb == iotlb_of(*msg),
-                Written::V1(m, n) => old(self).acked & 2 == 0 && m.type_ == 1 && n == 72 && m.__bindgen_anon_1.iotlb == iotlb_of(*msg),
-            },""")
-    u.raw("}")
-    # ---- C19: ioctl_result / io_result
-    for fn, ety in (("ioctl_result", "IoctlError"), ("io_result", "IOError")):
-        u.extracted_fn(kern, fn, sig_rw=[("R10", r'Result<T>', 'KResult<T>')],
-                       body_rw=[("R10", r'IoError::last_os_error\(\)', 'last_os_error()'), ("R10", r'Error::%s' % ety, 'KError::%s' % ety)],
-                       contract="        ensures (r is Ok) == (rc >= 0), r is Ok ==> r->Ok_0 == res // [C19] a negative return is an error, anything else returns what the kernel wrote")
+    # (C19: send_iotlb_msg, ioctl_result and io_result moved to unit `kern`)
     # (C17: VhostUserHandler::new is verified in unit `rank`; the former text anchor is gone)
     u.raw("fn main() {}\n} // verus!")
     return u
